@@ -9,11 +9,11 @@ import HtmlVerif.Lemmas.HtmlChars
 
 namespace HtmlVerif
 
-theorem escCharT_nokey (tbl : List (Char × Str)) (c : Char) (h : hasKey tbl c = false) :
+theorem escCharT_nokey (tbl : List (Char × Str)) (c : Char) (h : tblHasKey tbl c = false) :
     escCharT tbl c = [c] := by
   unfold escCharT
   have : tbl.find? (fun kv => kv.1 == c) = none := by
-    simp only [hasKey, List.any_eq_false] at h
+    simp only [tblHasKey, List.any_eq_false] at h
     simpa using h
   simp [this]
 
@@ -27,7 +27,7 @@ theorem escCharT_cons_eq (k : Char) (v : Str) (t : List (Char × Str)) :
   simp [escCharT, List.find?]
 
 theorem flatMap_escCharT_nokeys (tbl : List (Char × Str)) (v : Str)
-    (h : ∀ c ∈ v, hasKey tbl c = false) : v.flatMap (escCharT tbl) = v := by
+    (h : ∀ c ∈ v, tblHasKey tbl c = false) : v.flatMap (escCharT tbl) = v := by
   induction v with
   | nil => rfl
   | cons x xs ih =>
@@ -43,7 +43,7 @@ theorem seqReplace_eq_flatMap (tbl : List (Char × Str)) (h : seqOk tbl = true) 
     obtain ⟨k, v⟩ := kv
     simp only [seqOk, Bool.and_eq_true, List.all_eq_true] at h
     obtain ⟨hv, ht⟩ := h
-    have hv' : ∀ c ∈ v, hasKey t c = false := by
+    have hv' : ∀ c ∈ v, tblHasKey t c = false := by
       intro c hc; simpa using hv c hc
     simp only [seqReplace, ih ht, replaceChar, List.flatMap_assoc]
     congr 1
@@ -59,10 +59,10 @@ theorem htmlEscapeT_eq_flatMap (tbl : List (Char × Str)) (h : seqOk tbl = true)
   by_cases hn : needsEscape tbl s = true
   · simp [hn, seqReplace_eq_flatMap tbl h]
   · simp only [hn]
-    have : ∀ c ∈ s, hasKey tbl c = false := by
+    have : ∀ c ∈ s, tblHasKey tbl c = false := by
       simp only [needsEscape, Bool.not_eq_true, List.any_eq_false] at hn
       intro c hc
-      simp only [hasKey, List.any_eq_false]
+      simp only [tblHasKey, List.any_eq_false]
       intro kv hkv
       simpa using hn c hc kv hkv
     simp [flatMap_escCharT_nokeys tbl s this]
@@ -73,7 +73,7 @@ theorem tblOk_seq {stop : Char} {tbl : List (Char × Str)} (h : tblOk stop tbl =
   simp only [tblOk, Bool.and_eq_true] at h; exact h.1.1.1.1
 
 theorem find_key_mem (tbl : List (Char × Str)) (c : Char) :
-    (∃ kv, kv ∈ tbl ∧ kv.1 = c ∧ escCharT tbl c = kv.2) ∨ (hasKey tbl c = false ∧ escCharT tbl c = [c]) := by
+    (∃ kv, kv ∈ tbl ∧ kv.1 = c ∧ escCharT tbl c = kv.2) ∨ (tblHasKey tbl c = false ∧ escCharT tbl c = [c]) := by
   cases hf : tbl.find? (fun kv => kv.1 == c) with
   | some kv =>
     left
@@ -82,8 +82,8 @@ theorem find_key_mem (tbl : List (Char × Str)) (c : Char) :
     · simp [escCharT, hf]
   | none =>
     right
-    have hk : hasKey tbl c = false := by
-      simp only [hasKey, List.any_eq_false]
+    have hk : tblHasKey tbl c = false := by
+      simp only [tblHasKey, List.any_eq_false]
       simpa using hf
     exact ⟨hk, escCharT_nokey tbl c hk⟩
 
